@@ -576,6 +576,11 @@ def check_C16(A, R, tier):
     rule_failure_propagation(A, R, "R16.3", "R16.3")
     # R16.5: 'records nothing for it' (= R8.2): a started job that did not succeed loses both own records in new_history
     rule_started_failed_dropped(A, R, "R16.5")
+    # R16.7 (= R8.1): an output is attached to a job only by its successful execution or by the skip that validated it: a job
+    # that merely stopped being needed (pruned) must not look successful - new_history would refresh its input-name list, and the
+    # next time it is needed it counts as 'inputs unchanged' and is held to an output it produced from other inputs
+    from rules_history import rule_output_attached
+    rule_output_attached(A, R, "R16.7")
     # R16.4: 'inputs unchanged' (the Validated tag under which the check is made) is only concluded through comparisons (= R3.3)
     rule_validation_verdict(A, R, "R16.4")
     # nowhere else
@@ -753,26 +758,30 @@ def rule_validation_verdict(A, R, rule):
     return uvs, vt
 
 
-@prop("C03")
-def check_C03(A, R, tier):
+def rule_startup_detectors(A, R, rename=None):
+    """the startup classification with a change detector's outcome forced (input-name list differs / no own record / result
+    missing) marks the job invalidated on every path.  rename: {original rule id: rule id to report under}; ids not in it are not
+    reported (used to share single detectors with other properties)"""
+    from rules_more import loop_of_key
     C = A.classes()
-    K = kinds(A)
-    H = A.handler_runs()
-    sk = skip_kind(A)
     cleanup_kinds = set(A.kind_of(s) for s in C["CleanupOffered"])
-    # skippable kinds: kinds with a finished, not failed, never-started state
     skippable = set()
     for s in C["Finished"] - C["FailedLike"]:
         if reachable_without_running(A, s) and s in A.reach():
             skippable.add(A.kind_of(s))
-    R.info["skippable_kinds"] = sorted(skippable)
-    # states that cannot be skipped any more (Output) / are marked invalidated (Ephemeral): no re-validation, and
-    # for kinds without cleanup (Output) no skip emission at all
     inv = invalidated_states(A)
-    R.info["invalidated_states"] = A.snames(inv)
-    R.floor("R3.1", "invalidated states", len(inv), 2)
-    # the startup classification: the function whose loop hands out the jobs in (reverse) topological order
-    from rules_more import loop_of_key
+
+    def ROB(rule, *a, **k):
+        if rename is None:
+            R.ob(rule, *a, **k)
+        elif rule in rename:
+            R.ob(rename[rule], *a, **k)
+
+    def RFLOOR(rule, *a, **k):
+        if rename is None:
+            R.floor(rule, *a, **k)
+        elif rule in rename:
+            R.floor(rename[rule], *a, **k)
     imnames = set()
     for st_ in A.startup_runs():
         for w in st_.by_kind("write_state"):
@@ -781,7 +790,7 @@ def check_C03(A, R, tier):
                 if not isinstance(lk, str):
                     imnames.add(lk[0].name)
     ims = [A.facts.body(n) for n in sorted(imnames)]
-    R.floor("R3.1", "startup classification function", len(ims), 1)
+    RFLOOR("R3.1", "startup classification function", len(ims), 1)
     if not ims:
         return
     imo = ims[0]
@@ -849,7 +858,7 @@ def check_C03(A, R, tier):
         tos = set()
         for w in ws:
             tos |= set(w["to"])
-        R.ob("R3.1", "startup | %s job whose input-name list changed | is marked invalidated on every path" % kn,
+        ROB("R3.1", "startup | %s job whose input-name list changed | is marked invalidated on every path" % kn,
              must_write(I, fr, ws) and bool(tos) and tos <= inv, detail="states written: %s" % A.snames(tos))
         # R3.4: no own record at all (and it has upstreams)
         I, fr, ws = startup({"std::collections::HashMap::<K, V, S, A>::get": force_hist_none(A),
@@ -860,7 +869,7 @@ def check_C03(A, R, tier):
         tos = set()
         for w in ws:
             tos |= set(w["to"])
-        R.ob("R3.4", "startup | %s job with upstreams but without any own record | is marked invalidated on every path" % kn,
+        ROB("R3.4", "startup | %s job with upstreams but without any own record | is marked invalidated on every path" % kn,
              must_write(I, fr, ws) and bool(tos) and tos <= inv,
              detail="a job that has no record of a successful execution leaves startup un-invalidated (states written: %s)" % A.snames(tos))
         if kind not in cleanup_kinds:
@@ -871,8 +880,31 @@ def check_C03(A, R, tier):
             tos = set()
             for w in ws:
                 tos |= set(w["to"])
-            R.ob("R3.2", "startup | %s job whose result does not exist | is marked invalidated on every path" % kn,
+            ROB("R3.2", "startup | %s job whose result does not exist | is marked invalidated on every path" % kn,
                  must_write(I, fr, ws) and bool(tos) and tos <= inv, detail="states written: %s" % A.snames(tos))
+
+
+@prop("C03")
+def check_C03(A, R, tier):
+    C = A.classes()
+    K = kinds(A)
+    H = A.handler_runs()
+    sk = skip_kind(A)
+    cleanup_kinds = set(A.kind_of(s) for s in C["CleanupOffered"])
+    # skippable kinds: kinds with a finished, not failed, never-started state
+    skippable = set()
+    for s in C["Finished"] - C["FailedLike"]:
+        if reachable_without_running(A, s) and s in A.reach():
+            skippable.add(A.kind_of(s))
+    R.info["skippable_kinds"] = sorted(skippable)
+    # states that cannot be skipped any more (Output) / are marked invalidated (Ephemeral): no re-validation, and
+    # for kinds without cleanup (Output) no skip emission at all
+    inv = invalidated_states(A)
+    R.info["invalidated_states"] = A.snames(inv)
+    R.floor("R3.1", "invalidated states", len(inv), 2)
+    # the startup classification: the function whose loop hands out the jobs in (reverse) topological order
+    from rules_more import loop_of_key
+    rule_startup_detectors(A, R)
     uvs, vt = rule_validation_verdict(A, R, "R3.3")
     # R3.5: a job of a kind without cleanup is skipped only under the 'validated' verdict
     sc = [A.facts.body(n) for n in sorted(consider_entry_fns(A, sk))]
@@ -1412,6 +1444,9 @@ def check_C06(A, R, tier):
     # combinations it believes impossible as internal errors)
     from rules_c04 import rule_summary_accepts_written_flags
     rule_summary_accepts_written_flags(A, R, "R6.10")
+    # R6.11 (= R3.4, defect F6): a job without any own record is invalidated at startup - validated instead, it is later compared
+    # with records it does not have, or skipped without an output (both end in an internal error / a failed assertion)
+    rule_startup_detectors(A, R, rename={"R3.4": "R6.11"})
     # F7 is owned by C07 (R7.5); reference only
     R.explanation = ("Necessary conditions, each over all paths: state writes keep the kind (the kind-change panic is dead); explicit panics "
                      "outside the public API's argument checks are unreachable in the abstraction; every unwrap outside those checks is "
